@@ -21,15 +21,18 @@ cvars == <<sA, sB, groups>>
 
 One == INSTANCE ForkDetector WITH s <- sA      \* for Acts (the set of possible calls)
 
-Perms(S) == {q \in [1..Cardinality(S) -> S] : \A i, j \in 1..Cardinality(S) : i # j => q[i] # q[j]}
-
-\* groups of competing headers and the two arrival orders (A gets the ascending order)
+\* groups of 2..3 competing headers (same nonce) and the two arrival orders: A gets the ascending order,
+\* B every other permutation
 GroupActs(st) ==
     LET HS == DOMAIN st.U
-        Sets == {S \in SUBSET HS : /\ Cardinality(S) \in {2, 3}
-                                   /\ \A x, y \in S : st.U[x].nonce = st.U[y].nonce
-                                   /\ \A x \in S : Len(st.hdrs[st.U[x].nonce]) + Cardinality(S) <= MaxList}
-    IN  {[a |-> "Group", oa |-> p, ob |-> q] : p, q \in UNION {Perms(S) : S \in Sets}}
+        Same(x, y) == st.U[x].nonce = st.U[y].nonce
+        Room(x, k) == Len(st.hdrs[st.U[x].nonce]) + k <= MaxList
+        P2 == {p \in HS \X HS : p[1] < p[2] /\ Same(p[1], p[2]) /\ Room(p[1], 2)}
+        P3 == {t \in HS \X HS \X HS : t[1] < t[2] /\ t[2] < t[3] /\ Same(t[1], t[2]) /\ Same(t[2], t[3]) /\ Room(t[1], 3)}
+    IN  {[a |-> "Group", oa |-> p, ob |-> <<p[2], p[1]>>] : p \in P2}
+        \cup UNION {{[a |-> "Group", oa |-> t, ob |-> q] :
+                        q \in {<<t[1], t[3], t[2]>>, <<t[2], t[1], t[3]>>, <<t[2], t[3], t[1]>>,
+                               <<t[3], t[1], t[2]>>, <<t[3], t[2], t[1]>>}} : t \in P3}
 
 RECURSIVE RecvAll(_, _)
 RecvAll(st, l) == IF l = <<>> THEN st ELSE RecvAll(AddHeader(st, Head(l), "recv", <<>>).s, Tail(l))
@@ -57,7 +60,6 @@ Lock(act) ==
 \* a group of competing headers: order oa on A, order ob on B
 Group(act) ==
     /\ groups < MaxGroups
-    /\ SameSet(act.oa, act.ob) /\ Ascending(act.oa) /\ act.oa # act.ob
     /\ groups' = groups + 1
     /\ LET a == RecvAll(sA, act.oa) b == RecvAll(sB, act.ob) IN
           /\ sA' = a /\ sB' = b
